@@ -262,3 +262,38 @@ Proof. exact odes_roundtrip_bounded_lemma. Qed.
    Compartment.create makes, to_compartmental_system builds exactly [rebuilt g] *)
 Theorem rebuilt_default_idv : forall amt_t g, g_default_idv amt_t g = true -> rebuilt_with amt_t g = rebuilt g.
 Proof. exact rebuilt_with_default. Qed.
+
+(* to_compartmental_system for systems of ANY size — the term-matching loop.  For every well-formed
+   [linear_distinct] system g (any number of compartments, any topology): (1) after the loop over equations,
+   amounts and terms, the builder graph [g1 g] holds exactly the flows of g between the compartments: every
+   +k*A_j of equation i was matched with the -k*A_j of equation j and of no other equation, and entered once as
+   the flow j -> i with rate k (no accumulation); (2) no flow to output exists yet; (3) the function's result is
+   the final pass (remaining negative terms -> flow to output, remaining positive terms -> input) applied to
+   [g1 g] and to the remaining equations, which are computed by a fold that is independent of the graph.
+   NOT proved for all sizes (only for the 12 492 systems of odes_roundtrip_partial, and checked by tags 9/20):
+   that the remaining equations are exactly (output term, input term) and that the final pass then yields
+   [same_flows g (rebuilt g)]. *)
+Theorem odes_matching_loop : forall g,
+  WF g -> linear_distinct g = true ->
+  let cmts := map default_comp (order g) in
+  let n := length (order g) in
+  (forall a b, a < n -> b < n ->
+     get_flow (g1 g) (Cmt (nthc cmts a)) (Cmt (nthc cmts b)) = get_flow g (Cmt (nthc (order g) a)) (Cmt (nthc (order g) b))) /\
+  (forall a, get_flow (g1 g) (Cmt (nthc cmts a)) Out = Num 0%Q) /\
+  rebuilt g = (let ne := fold_left (nstep (terms_of g)) (triples (terms_of g)) (terms_of g) in
+               fold_left (final_eq cmts (amounts g)) (combine (seq 0 (length ne)) ne) (g1 g)).
+Proof. exact matching_loop_flows_lemma. Qed.
+
+(* the partner search: a positive term k*A_j of equation i (the flow j -> i) finds -k*A_j in equation j and in
+   no other equation, for every well-formed system of any size *)
+Theorem odes_partner_unique : forall g i j k,
+  WF g -> linear_distinct g = true -> i < length (order g) -> j < length (order g) -> i <> j ->
+  adj_lookup (adj_of g (Cmt (nthc (order g) j))) (Cmt (nthc (order g) i)) = Some k ->
+  find_from (terms_of g) (mkT true k (Some j)) = Some j.
+Proof. exact find_inflow_lemma. Qed.
+
+(* the loop of the model is two independent folds over the flattened (equation, amount, term) triples *)
+Theorem odes_loop_split : forall cmts eqs g0 ne0,
+  fold_left (step_eq cmts eqs) (seq 0 (length eqs)) (g0, ne0)
+  = (fold_left (gstep cmts eqs) (triples eqs) g0, fold_left (nstep eqs) (triples eqs) ne0).
+Proof. exact main_loop_split. Qed.
